@@ -30,10 +30,10 @@ theorem Ab.of_abortExec (s : St) (rid : Nat) : Ab rid (Server.abortExec s rid) :
   exact hset e0 he0 (by rw [← hm.rid e0]; exact hr)
 
 /-- the tracked entry with id `id` (guarding execution `rid`) is due for expiry at `now`: its timer tick has passed and
-nothing of its remainder is left after taking off the lateness -/
+nothing of its remainder is left after taking off the lateness (measured from the exact due time `dueAt`) -/
 def DueEntry (id rid now : Nat) (s : St) : Prop :=
   ∃ en ∈ s.inflight, en.id = id ∧ en.rid = rid ∧ ∃ k ∈ s.timers.cores, k.1 = en.timerKey ∧
-    k.2.2 * nsPerMs ≤ now ∧ en.remainder ≤ now - k.2.2 * nsPerMs
+    k.2.2 * nsPerMs ≤ now ∧ en.remainder ≤ now - en.dueAt
 
 /-- no entry with id `id` is tracked, and if it was not a queued guard cancellation (`cq0`) that removed it, every
 execution with rid `rid` has been aborted -/
@@ -95,8 +95,8 @@ theorem DueOr.removed {s s' : St} (h : TInv now s) (hd : DueOr id rid now cq0 s)
 
 /-- another entry's timer is re-armed -/
 theorem DueOr.rearmedOther {s s' : St} (h : TInv now s) (hd : DueOr id rid now cq0 s) {e : SEntry} (he : e ∈ s.inflight)
-    (hne : e.id ≠ id) (key late : Nat)
-    (hi : s'.inflight = s.inflight.map (rearmUpd e.id key late))
+    (hne : e.id ≠ id) (key t : Nat)
+    (hi : s'.inflight = s.inflight.map (rearmUpd e.id key t))
     (hc : ∀ c, c ∈ s.timers.cores → c.1 ≠ e.timerKey → c ∈ s'.timers.cores)
     (hex : s'.execs = s.execs) (hq : ∀ x ∈ s'.cancelQ, x ∈ s.cancelQ) : DueOr id rid now cq0 s' := by
   refine ⟨fun x hx => hd.cq x (hq x hx), ?_⟩
@@ -211,12 +211,10 @@ theorem DueOr.expireStep {s : St} (h : TInv now s) (hd : DueOr id rid now cq0 s)
           DelayQ.cores_key_unique h.wf hk (DelayQ.pollExpired_expired hp h.wf).1 (by rw [h3, hkey]; rfl)
         subst hkc
         apply h0
-        show en'.remainder - (now - e.whenMs * nsPerMs) = 0
-        have : (DelayQ.core e).2.2 = e.whenMs := rfl
-        rw [this] at h5
+        show en'.remainder - (now - en'.dueAt) = 0
         omega
       · exact hno en hen hval
-    · refine hd.rearmedOther h hen hval key (now - e.whenMs * nsPerMs) ?_ hcores ?_ ?_
+    · refine hd.rearmedOther h hen hval key now ?_ hcores ?_ ?_
       · cases w <;> simp
       · cases w <;> simp
       · intro x hx
